@@ -1,4 +1,5 @@
 import Resgate.Gw.Types
+import Resgate.Gw.Pure
 import Resgate.Model.Rid
 import Resgate.Model.Pattern
 import Resgate.Model.Diff
